@@ -75,7 +75,10 @@ def run(ctx, rep) -> None:
     rep.check(ok, "C15.R2", "the stored count is count + 1, on the target and on the source", "new_jump_count = jump_count + 1 written to target context and source updates", "src/stabilize/handlers/jump_to_stage/handler.py", on.lineno, disc="increment")
     # the target's context updates are applied AFTER its reset inside the mutation
     mt = [n for n in ast.walk(on) if isinstance(n, ast.FunctionDef) and n.name == "mutate_target"]
-    ok = bool(mt) and [norm(s) for s in mt[0].body][-2:] == ["reset_stage_for_retry(s)", "s.context.update(updates)"]
+    # order matters, not adjacency: the reset comes first, the budget update after it, and nothing resets again afterwards
+    seq_ = [norm(s) for s in mt[0].body] if mt else []
+    ok = bool(mt) and "reset_stage_for_retry(s)" in seq_ and "s.context.update(updates)" in seq_ and seq_.index("reset_stage_for_retry(s)") < seq_.index("s.context.update(updates)") \
+        and not any("reset_stage" in x for x in seq_[seq_.index("s.context.update(updates)"):])
     rep.check(ok, "C15.R2", "the budget is written after the re-arm of the target", "mutate_target: reset_stage_for_retry(s); s.context.update(updates)", "src/stabilize/handlers/jump_to_stage/handler.py", mt[0].lineno if mt else on.lineno, disc="target-order")
 
     # ---- R3 --------------------------------------------------------------------------------------
